@@ -30,8 +30,11 @@ type Failure struct {
 func (f *Failure) Error() string { return f.Key + ": " + f.Msg }
 
 // Failf builds a Failure.
+// A message that quotes a run-out wait ("request timeout after 4s", "context deadline exceeded") makes the
+// verdict time-bounded: it is confirmed by repeated isolated replay before it is reported.
 func Failf(key, format string, args ...interface{}) *Failure {
-	return &Failure{Key: key, Msg: fmt.Sprintf(format, args...)}
+	msg := fmt.Sprintf(format, args...)
+	return &Failure{Key: key, Msg: msg, Timing: strings.Contains(msg, "timeout after") || strings.Contains(msg, "deadline exceeded")}
 }
 
 // TimingFailf builds a Failure whose verdict depends on a time bound.
@@ -256,7 +259,19 @@ func RunProp[C any](t *testing.T, p Prop[C]) {
 
 // ---------------------------------------------------------------------------
 
+// isTimeoutText reports whether an error text says that a wait ran out (such a verdict is time-bounded).
+func isTimeoutText(s string) bool {
+	return strings.Contains(s, "deadline") || strings.Contains(s, "timeout") || strings.Contains(s, "timed out")
+}
+
 type nopLogger struct{}
+
+// debugLog prints the library's warnings and errors when VERIF_DEBUG is set (development aid, no effect on verdicts).
+func debugLog(format string, args ...interface{}) {
+	if os.Getenv("VERIF_DEBUG") != "" {
+		fmt.Fprintf(os.Stderr, "LIB: "+format+"\n", args...)
+	}
+}
 
 func (nopLogger) Debug(args ...interface{})                 {}
 func (nopLogger) Debugf(format string, args ...interface{}) {}
@@ -265,7 +280,7 @@ func (nopLogger) Infof(format string, args ...interface{})  {}
 func (nopLogger) Warn(args ...interface{})                  {}
 func (nopLogger) Warnf(format string, args ...interface{})  {}
 func (nopLogger) Error(args ...interface{})                 {}
-func (nopLogger) Errorf(format string, args ...interface{}) {}
+func (nopLogger) Errorf(format string, args ...interface{}) { debugLog(format, args...) }
 func (nopLogger) Fatal(args ...interface{})                 {}
 func (nopLogger) Fatalf(format string, args ...interface{}) {}
 
